@@ -163,6 +163,10 @@ func c08MemoryGuard(res *Result, current *atomic.Value) {
 }
 
 func runC08(cases string, res *Result) {
+	if len(os.Args) > 4 && os.Args[4] == "--history-one" {
+		c08HistoryMain(cases)
+		return
+	}
 	var current atomic.Value
 	current.Store(Case{})
 	c08MemoryGuard(res, &current)
@@ -173,6 +177,10 @@ func runC08(cases string, res *Result) {
 		current.Store(c)
 		stream := c.str("stream")
 		res.Hist["stream:"+stream]++
+		if stream == "history" {
+			c08History(c, res, cases)
+			return
+		}
 		ok := c08WithTimeout(20*time.Second, func() {
 			switch stream {
 			case "soup", "truncated", "mutated":
